@@ -53,7 +53,8 @@ theorem C01_date_inv (y m d : Int) (hy : 0 ≤ y) (hy2 : y < 2 ^ 31) (hm : 1 ≤
 
 /-- **Full statement** of C01 on the byte level: for every environment, every root and every
 representable message (`valOk` is schema directed and general: flattened objects, exposed oneofs,
-anonymous proto oneofs are all covered by it; `Any` values are not `valOk`), encoding succeeds and
+anonymous proto oneofs are all covered by it; a j5 `Any` is `valOk` when it holds recognised
+compact `j5_json` only), encoding succeeds and
 decoding the bytes gives the message back. -/
 def C01_roundtrip_full : Prop :=
   ∀ (c : Cfg) (_ : OracleLaws c.O) (root : String) (m : Fields),
@@ -63,8 +64,8 @@ def C01_roundtrip_full : Prop :=
 /-- **Proved part (`_partial`)**, on the level of JSON trees: for every *flat* environment
 (`Env.flat`: proto paths of any positive length — **flattened objects**, whose properties are
 inlined into the parent with the full path —, **exposed oneofs** (empty path), **anonymous proto
-oneofs** inside objects; no `Any`, no exposed oneof inlined from a flattened object) and every
-representable message
+oneofs** inside objects, **j5 `Any` properties**; no `google.protobuf.Any`, no exposed oneof
+inlined from a flattened object) and every representable message
 (`valOk`: sorted store, only schema fields, representable scalars, valid UTF-8, defined enum
 numbers, non-empty lists and maps with distinct keys, at most one member per wrapper / exposed /
 proto oneof, decimals in normal form): whatever tree the encoder writes, the decoder maps back to
@@ -76,24 +77,36 @@ members stay unset), flattened sub-messages (created by the `Mutable` walk when 
 below them is decoded; the decoder's message after any subset of members is the restriction
 `restrictP` of the original message to the leaves read so far).
 
-Missing for the full statement: `Any`; an exposed oneof inlined from a flattened object. -/
+A j5 `Any` (`.any false`) is representable when it carries `j5_json` only, the bytes being the
+compact rendering of a complete JSON value of depth ≤ 10000 which the specification-side oracle
+`O.chunk` recognises; with `WithProtoToAny` the decoder additionally stores the expanded proto
+content, so the exact round trip is stated for the codec without it (`hA`: mode `n`, or no `Any` in
+the environment at all — then every mode).
+
+Missing for the full statement: `google.protobuf.Any` and `Any` with proto content (round trip only
+up to re-marshalling, needs a resolver / marshal abstraction), mode `WithProtoToAny` for `Any`; an
+exposed oneof inlined from a flattened object. -/
 theorem C01_roundtrip_tree_partial (c : Cfg) (hs : c.env.flat = true) (L : OracleLaws c.O)
+    (hA : c.protoToAny = false ∨ c.env.noAny = true)
     (root : String) (m : Fields) (t : PTree)
     (hok : valOk c.env c.O (.object root) (.msg m) = true ∨
       valOk c.env c.O (.oneof root) (.msg m) = true)
     (henc : encodeTree c.env c.O root (.msg m) = .ok t) : decRootTree c root t = .ok m := by
-  obtain ⟨t', ht', hdec⟩ := roundtrip_tree_flat c hs L root m hok
+  obtain ⟨t', ht', hdec⟩ := roundtrip_tree_flat c hs L hA root m hok
   rw [henc] at ht'; cases ht'; exact hdec
 
 /-- **Byte level (`_partial`)**: the same statement on the bytes `Codec.ProtoToJSON` returns and
 `Codec.JSONToProto` reads — through the string escaper / unquoter, the number scanner, the
-`Token()` state machine and the tree builder (`readDoc_render`). Same hypotheses. -/
+`Token()` state machine and the tree builder (`readDoc_render`). Same hypotheses, plus `ChunkLaws`:
+what `O.chunk` recognises is compact JSON as the codec writes it (`PTree.Enc`); the `j5_json` of an
+`Any` is spliced into the output verbatim and read back as part of the document. -/
 theorem C01_roundtrip_bytes_partial (c : Cfg) (hs : c.env.flat = true) (L : OracleLaws c.O)
+    (hC : ChunkLaws c.O) (hA : c.protoToAny = false ∨ c.env.noAny = true)
     (root : String) (m : Fields) (bs : Bytes)
     (hok : valOk c.env c.O (.object root) (.msg m) = true ∨
       valOk c.env c.O (.oneof root) (.msg m) = true)
     (henc : encodeBytes c.env c.O root (.msg m) = .ok bs) : decodeBytes c root bs = .ok m := by
-  obtain ⟨bs', hbs', hdec⟩ := roundtrip_bytes c hs L root m hok
+  obtain ⟨bs', hbs', hdec⟩ := roundtrip_bytes c hs L hC hA root m hok
   rw [henc] at hbs'; cases hbs'; exact hdec
 
 /-- **C01 for flat environments (`_partial` only in the class of schemas)**: encoding any
@@ -101,35 +114,36 @@ representable message succeeds, and decoding the bytes into a fresh message of t
 yields exactly the original message. Unbounded in message size, nesting depth, number of
 properties, string contents and integer values.
 
-Missing for `C01_roundtrip_full`: schemas with `Any` fields or an exposed oneof inlined from a
-flattened object (modelled and validated against Go by the correspondence, not yet covered by this
-proof), "an empty flattened sub-object is treated as absent" (`valOk` excludes empty flattened
+Missing for `C01_roundtrip_full`: `google.protobuf.Any`, `Any` values with proto content and
+`Any` under `WithProtoToAny` (equal only up to re-marshalling), an exposed oneof inlined from a
+flattened object (all modelled and validated against Go by the correspondence, not yet covered by
+this proof), "an empty flattened sub-object is treated as absent" (`valOk` excludes empty flattened
 sub-messages; the Go-side oracle compares modulo them), and decimals that are
 not in `decimal.String()` normal form (they round-trip up to numeric equality:
 `C01_scalar_roundtrip`). -/
 theorem C01_roundtrip_partial (c : Cfg) (hs : c.env.flat = true) (L : OracleLaws c.O)
+    (hC : ChunkLaws c.O) (hA : c.protoToAny = false ∨ c.env.noAny = true)
     (root : String) (m : Fields)
     (hok : valOk c.env c.O (.object root) (.msg m) = true ∨
       valOk c.env c.O (.oneof root) (.msg m) = true) :
     ∃ bs, encodeBytes c.env c.O root (.msg m) = .ok bs ∧ decodeBytes c root bs = .ok m :=
-  roundtrip_bytes c hs L root m hok
+  roundtrip_bytes c hs L hC hA root m hok
 
 /-- encoding alone (first half of the statement) -/
 theorem C01_encode_succeeds_partial (c : Cfg) (hs : c.env.flat = true) (L : OracleLaws c.O)
-    (root : String) (m : Fields)
+    (hC : ChunkLaws c.O) (root : String) (m : Fields)
     (hok : valOk c.env c.O (.object root) (.msg m) = true ∨
       valOk c.env c.O (.oneof root) (.msg m) = true) :
     ∃ bs, encodeBytes c.env c.O root (.msg m) = .ok bs :=
-  encode_ok c hs L root m hok
+  encode_ok c hs L hC root m hok
 
-/-- **`Any` (j5, tree level, `_partial`)**: a `j5.types.any.v1.Any` holding `j5_json = V.render`
+/-- **`Any` (j5, one property, tree level)**: a `j5.types.any.v1.Any` holding `j5_json = V.render`
 for a complete JSON value `V` of nesting depth ≤ 10000 and a valid UTF-8 type name is written as
-`{"!type": typeName, "value": <j5_json verbatim>}`, and the decoder (codec without
-`WithProtoToAny`) reading `{"!type": typeName, "value": V}` into any property with a proto path
-stores exactly `Any{type_name, j5_json}` again. Missing for the byte-level round trip with `Any`:
-the reader delivers the *parsed* value where the encoder's tree holds the raw chunk (needs
-`readDoc (… ++ V.render ++ …)` to contain `V`, i.e. `Enc V`), the `proto` / protobuf-Any forms
-(equal only up to re-marshalling) and mode `WithProtoToAny`. -/
+`{"!type": typeName, "value": <j5_json verbatim>}` (`chunkNode`: the raw bytes, or — same bytes —
+their parsed form), and the decoder (codec without `WithProtoToAny`) reading
+`{"!type": typeName, "value": V}` into any property with a proto path stores exactly
+`Any{type_name, j5_json}` again. The whole-message, byte-level statement is
+`C01_roundtrip_partial`. -/
 theorem C01_any_j5_partial (c : Cfg) (hmode : c.protoToAny = false) (props : List PropDef)
     (p : PropDef) (st : PS) (tn : Bytes) (tv : PTree) (f : Nat)
     (hf : p.field = .any false) (hp : p.path ≠ []) (hs : p.jsonName ∉ st.seen)
@@ -137,7 +151,7 @@ theorem C01_any_j5_partial (c : Cfg) (hmode : c.protoToAny = false) (props : Lis
     (hj : tv.render ≠ []) (hu : isValidUtf8 tn = true) :
     ∃ tlit nlit vlit,
       encValue c.env c.O (f + 1) (.any false) (.anyJ5 tn [] tv.render .none "" (.msg [])) =
-        .ok (.obj (.cons typeKey tlit (.str tn nlit) (.cons valueKey vlit (.raw tv.render) (.nil .closed)))) ∧
+        .ok (.obj (.cons typeKey tlit (.str tn nlit) (.cons valueKey vlit (chunkNode c.O tv.render) (.nil .closed)))) ∧
       decProp c props p
           (.obj (.cons typeKey tlit (.str tn nlit) (.cons valueKey vlit tv (.nil .closed)))) st =
         .ok { m := updPath props p (some (.anyJ5 tn [] tv.render .none "" (.msg []))) st.m,
@@ -210,6 +224,76 @@ example : valOk sampleEnv toyOracle (.object "t.M") (.msg [(20, .int 1), (21, .m
   decide
 /-- an empty flattened sub-message is not representable (C01 treats it as absent) -/
 example : valOk sampleEnv toyOracle (.object "t.M") (.msg [(40, .msg [])]) = false := by decide
+
+/-! ### with `Any` -/
+
+/-- the chunk `{"k":1}` in parsed form -/
+def chunkTree : PTree :=
+  .obj (.cons (ascii "k") (ascii "\"k\"") (.num (ascii "1")) (.nil .closed))
+
+/-- an oracle whose specification-side recogniser knows the chunk `{"k":1}` -/
+def anyOracle : Oracle :=
+  { toyOracle with chunk := fun bs => if bs = ascii "{\"k\":1}" then some chunkTree else none }
+
+/-- an environment with j5 `Any` properties: a plain one and one inside a flattened object -/
+def sampleAnyEnv : Env :=
+  { defs := [
+      ("t.A", .object [
+        { jsonName := ascii "name", path := [1], pres := .imp, field := .scalar .string },
+        { jsonName := ascii "payload", path := [2], pres := .msg, field := .any false },
+        { jsonName := ascii "inner", path := [3, 1], pres := .msg, field := .any false },
+        { jsonName := ascii "kids", path := [4], pres := .list, field := .array (.object "t.A") }])] }
+
+def sampleAnyMsg : Fields :=
+  [(1, .str (ascii "x")),
+   (2, .anyJ5 (ascii "t.v1.T") [] (ascii "{\"k\":1}") .none "" (.msg [])),
+   (3, .msg [(1, .anyJ5 (ascii "u") [] (ascii "{\"k\":1}") .none "" (.msg []))]),
+   (4, .list [.msg [(2, .anyJ5 (ascii "t.v1.T") [] (ascii "{\"k\":1}") .none "" (.msg []))]])]
+
+example : sampleAnyEnv.flat = true := by decide
+example : sampleAnyEnv.noAny = false := by decide
+example : valOk sampleAnyEnv anyOracle (.object "t.A") (.msg sampleAnyMsg) = true := by decide
+/-- bytes the oracle does not recognise, or an `Any` that also carries proto content, are not
+representable in the sense of the theorem -/
+example : valOk sampleAnyEnv anyOracle (.object "t.A")
+    (.msg [(2, .anyJ5 (ascii "t") [] (ascii "}") .none "" (.msg []))]) = false := by decide
+example : valOk sampleAnyEnv anyOracle (.object "t.A")
+    (.msg [(2, .anyJ5 (ascii "t") [8, 1] (ascii "{\"k\":1}") .none "" (.msg []))]) = false := by decide
+example : OracleLaws anyOracle := oracleLaws_withChunk toyOracle toyOracle_laws _
+example : ChunkLaws anyOracle := by
+  intro bs V h
+  simp only [anyOracle] at h
+  split at h
+  · cases h
+    simp only [chunkTree, PTree.Enc, PMembers.Enc]
+    exact ⟨LitOk_of_appendString _ _ (by decide), numOk_fmtNat 1, trivial⟩
+  · cases h
+/-- the real oracles (the driver's: `chunk` is never set) satisfy `ChunkLaws` trivially -/
+example : ChunkLaws toyOracle := chunkLaws_default _ rfl
+example : (({ env := sampleAnyEnv, O := anyOracle } : Cfg).protoToAny = false ∨
+    sampleAnyEnv.noAny = true) := Or.inl rfl
+
+/-- **the codec's own output is a recognisable chunk**: for a representable message of a flat
+environment the bytes `Codec.ProtoToJSON` returns are the rendering of an encoder tree — exactly
+what `ChunkLaws` asks of a recognised `j5_json`. So an `Any` whose `j5_json` was produced by the
+codec itself (the case the property quantifies over) is covered by `C01_roundtrip_partial` with
+an oracle that recognises those bytes (`oracleLaws_withChunk`: the text-oracle laws are not
+affected), as long as the nesting depth stays ≤ 10000 (`maxNestingDepth` of `encoding/json`). -/
+theorem C01_own_output_is_chunk (c : Cfg) (hs : c.env.flat = true) (L : OracleLaws c.O)
+    (hC : ChunkLaws c.O) (root : String) (m : Fields)
+    (hok : valOk c.env c.O (.object root) (.msg m) = true ∨
+      valOk c.env c.O (.oneof root) (.msg m) = true) :
+    ∃ (bs : Bytes) (V : PTree), encodeBytes c.env c.O root (.msg m) = .ok bs ∧ V.Enc ∧ V.render = bs ∧
+      V.complete = true := by
+  obtain ⟨bs, hbs⟩ := encode_ok c hs L hC root m hok
+  have hch : (PVal.msg m).chunksOk c.O = true := by
+    rcases hok with hok | hok
+    · exact valOk_chunksOk _ _ _ _ hok
+    · exact valOk_chunksOk _ _ _ _ hok
+  obtain ⟨t, ht, hb, _⟩ := encodeBytes_parses' c.env c.O hC (floatTextOk_of_laws c.O L) root
+    (.msg m) bs (Or.inr hch) hbs
+  have henc := encodeTree_enc' c.env c.O hC (floatTextOk_of_laws c.O L) root (.msg m) t (Or.inr hch) ht
+  exact ⟨bs, t, hbs, henc, hb.symm, enc_complete t henc⟩
 
 /-- the oracle laws are satisfiable -/
 example : OracleLaws toyOracle := toyOracle_laws
